@@ -268,7 +268,8 @@ def rule_R2_index_helpers(ctx, f):
                     if st["k"] == "assign" and st["pl"]["l"] == 0:
                         m[v] = fu.term_rvalue(st["rv"])[2].split("::")[-1]
         ctx.ob(rid, "from-u64|table", m == {0: names[0], 1: names[1]} and si is not None and peel(si[0]) == P(1), "From<u64> must map 0 -> %s and 1 -> %s (found %s)" % (names[0], names[1], m), site=fu.raw["span"]["at"])
-    tu = ctx.anchor(rid, "From<ShardIndex> for usize", (f.find("<impl std::convert::From<prometheus::histogram::ShardIndex> for usize>::from") or [None])[0])
+    tu = ctx.anchor(rid, "From<ShardIndex> for usize", (f.find("<impl std::convert::From<prometheus::histogram::ShardIndex> for usize>::from") or
+                                                        f.find(re.compile(r"<impl std::convert::From<prometheus::(?:[a-z_0-9]+::)*ShardIndex> for usize>::from$")) or [None])[0])
     if tu and len(names) == 2:
         ctx.saw(tu)
         si = tu.switch_info(0)
@@ -285,7 +286,7 @@ def rule_R2_index_helpers(ctx, f):
     sh = f.adt(H + "HistogramCore")
     if sh:
         fs = {x["name"]: x["ty"] for x in sh["variants"][0]["fields"]}
-        ctx.ob(rid, "HistogramCore|two-shards", fs.get("shards", "").replace(" ", "") == "[prometheus::histogram::Shard;2]", "a histogram must have exactly two shards (found %s)" % fs.get("shards"))
+        ctx.ob(rid, "HistogramCore|two-shards", re.sub(r"prometheus::(?:[a-z_0-9]+::)*", "prometheus::", fs.get("shards", "").replace(" ", "")) == "[prometheus::Shard;2]", "a histogram must have exactly two shards (found %s)" % fs.get("shards"))
 
 
 def _top_bit_selects_variant(b, f, TOP):
